@@ -346,6 +346,23 @@ def _run(prop, tier, seed, replay, rep, vh, work, finish=True):
                 rep.violation({"clause": c, "variant": r["variant"], "realProcess": True}, {"real_stop_run": r})
         rep.cov["real_process_stop_runs"] = [json.loads(l) for l in open(srec)]
 
+    # ---- 7. (C04 only) the same property on the real binary: every channel a run reports through (persisted status, exit
+    # code, handlers that ran, mails to a local SMTP sink) for 6 step scripts x 5 handler sets x mail on/off x failing handlers
+    if prop == "C04" and not replay:
+        import record_checks as rc
+        binary = vp.build_binary(os.path.join(work, "blackdagger"))
+        orec = os.path.join(work, "outcome.ndjson")
+        rc.run_vh(vh, ["agentlife", "-bin", binary, "-mode", "outcome", "-out", orec], env=dict(vp.GOENV, TMPDIR=work), timeout=900)
+        overdicts, oconsumed = rc.observe_records(work, "AgentLifeObserve", orec, nchunks=1)
+        for v in overdicts:
+            r = v["rec"]
+            for c in v["viol"]:
+                if c == "INFRA":
+                    raise Infra("real outcome run %s: %s" % (r["variant"], r["infra"]))
+                rep.violation({"clause": c, "variant": r["variant"], "handlers": r["handlers"], "mailOn": r["mailOn"], "hfail": r["hfail"], "realProcess": True},
+                              {"real_outcome_run": r})
+        rep.cov["real_binary_outcome_runs"] = oconsumed
+
     if consumed == 0 or not verdicts:
         raise Infra("no trace was validated")
     samples = []
